@@ -31,6 +31,35 @@ Definition same_answers (r_in r_out : option (list tuple)) : bool :=
   | _, _ => false
   end.
 
+(* The IR model covers Compute arithmetic on INTEGER operands only (Model/IR.v header).  A
+   malformed plan (broken index) can feed a missing column = Null into an arithmetic expression,
+   where the code continues in f64; [den_in_fragment] tells whether every arithmetic node
+   evaluated by the plan on this database stays inside the modelled fragment.  Well-formed
+   generated plans must stay inside it (checked); for malformed plans outside it the
+   model/implementation comparison is not meaningful and is skipped (the oracle still runs). *)
+Fixpoint expr_in_fragment (e : expr) (t : tuple) : bool :=
+  match e with
+  | EArith _ l r =>
+      expr_in_fragment l t && expr_in_fragment r t &&
+      match is_int (eval_expr l t), is_int (eval_expr r t) with Some _, Some _ => true | _, _ => false end
+  | _ => true
+  end.
+
+Definition compute_in_fragment (es : list (N * expr)) (t : tuple) : bool :=
+  snd (fold_left (fun (st : tuple * bool) ne =>
+                    (fst st ++ [eval_expr (snd ne) (fst st)], snd st && expr_in_fragment (snd ne) (fst st)))
+                 es (t, true)).
+
+Fixpoint den_in_fragment (t : ir) (d : db) {struct t} : bool :=
+  match t with
+  | Scan _ _ | HnswScan _ => true
+  | Compute x es => den_in_fragment x d && forallb (compute_in_fragment es) (den x d)
+  | Map x _ _ | Filter x _ | Distinct x | Aggregate x _ _ _ | FlatMap x _ _ _ => den_in_fragment x d
+  | Join l r _ _ _ | Antijoin l r _ _ _ | JoinFlatMap l r _ _ _ _ _ =>
+      den_in_fragment l d && den_in_fragment r d
+  | Union ts => forallb (fun x => den_in_fragment x d) ts
+  end.
+
 Definition c05_one (c : c05case) : N * (bool * bool) :=
   match c with
   | C05Case pass wf_claim d t topt r_in r_out =>
@@ -45,13 +74,16 @@ Definition c05_one (c : c05case) : N * (bool * bool) :=
                          match topt with Some t' => ir_eqb (optimize t) t' | None => false end
                        else true in
       if wf then
-        (0, (corr_in && corr_out && corr_tree, same_answers r_in r_out))
+        (0, (den_in_fragment t d && corr_in && corr_out && corr_tree, same_answers r_in r_out))
       else
         (* ill-formed tree: the property makes no claim; the model must still agree with whatever
            the implementation managed to compute *)
         (0, (negb wf_claim &&
-             (match r_in with Some _ => corr_in | None => true end) &&
-             (match topt, r_out with Some _, Some _ => corr_out | _, _ => true end), true))
+             (match r_in with Some _ => corr_in || negb (den_in_fragment t d) | None => true end) &&
+             (match topt, r_out with
+              | Some t', Some _ => corr_out || negb (den_in_fragment t' d)
+              | _, _ => true
+              end), true))
   | C05Oracle pass r_in r_out => (0, (true, same_answers r_in r_out))
   end.
 
